@@ -13,9 +13,6 @@ python3 - <<'PY'
 import sys
 sys.path.insert(0, '.')
 from vlib import l2
-m = l2.Module(0, '#[::derive_ex::derive_ex(Clone)]\npub struct W(u8);\npub fn run() { let _ = W(1).clone(); }')
-l2.compile_batch('warm', [m])
-l2.cleanup('warm')
-print('l2 target warmed:', m.compiled)
+print('real proc-macro built:', l2.ensure_macro()[0])
 PY
 echo setup done
